@@ -8,6 +8,7 @@ import (
 	"fmt"
 	"go/ast"
 	"go/token"
+	"sort"
 	"strings"
 )
 
@@ -167,26 +168,86 @@ func c06Facts(c *ctx) (string, error) {
 			continue
 		}
 		if len(rs.Body.List) != 1 {
-			return "", fmt.Errorf("newClientConn: loop over t.Settings is no longer a single switch")
+			return "", fmt.Errorf("newClientConn: loop over t.Settings is no longer a single switch / if chain")
 		}
-		sw, ok := rs.Body.List[0].(*ast.SwitchStmt)
-		if !ok || sw.Init != nil || c06Render(c.fset, sw.Tag) != c06Render(c.fset, rs.Value)+".ID" {
-			return "", fmt.Errorf("newClientConn: loop over t.Settings is no longer `switch setting.ID`")
+		// a `switch setting.ID` and an if / else-if chain on `setting.ID == K` are the same thing
+		var chain ast.Stmt
+		switch st := rs.Body.List[0].(type) {
+		case *ast.SwitchStmt:
+			var err error
+			if chain, err = t.switchToIf(st); err != nil {
+				return "", fmt.Errorf("newClientConn settings switch: %v", err)
+			}
+		case *ast.IfStmt:
+			chain = st
+		default:
+			return "", fmt.Errorf("newClientConn: loop over t.Settings is no longer a switch / if chain")
 		}
 		foundSwitch = true
-		for _, cs := range sw.Body.List {
-			cc := cs.(*ast.CaseClause)
-			if len(cc.List) != 1 || len(cc.Body) != 1 {
-				return "", fmt.Errorf("newClientConn: settings switch case with several values or statements: %s", c06Render(c.fset, cc))
+		idExpr := c06Render(c.fset, rs.Value) + ".ID"
+		for chain != nil {
+			is, ok := chain.(*ast.IfStmt)
+			if !ok {
+				if blk, ok := chain.(*ast.BlockStmt); ok && len(blk.List) == 0 {
+					break // empty default
+				}
+				return "", fmt.Errorf("newClientConn: settings chain has a default branch with effects")
 			}
-			as, ok := cc.Body[0].(*ast.AssignStmt)
+			if is.Init != nil {
+				return "", fmt.Errorf("newClientConn: settings chain with init")
+			}
+			// the condition: a disjunction of `setting.ID == K`
+			var keys []string
+			var walk func(e ast.Expr) bool
+			walk = func(e ast.Expr) bool {
+				if p, ok := e.(*ast.ParenExpr); ok {
+					return walk(p.X)
+				}
+				b, ok := e.(*ast.BinaryExpr)
+				if !ok {
+					return false
+				}
+				if b.Op == token.LOR {
+					return walk(b.X) && walk(b.Y)
+				}
+				if b.Op != token.EQL {
+					return false
+				}
+				l, r := c06Render(c.fset, b.X), c06Render(c.fset, b.Y)
+				if l == idExpr {
+					keys = append(keys, r)
+					return true
+				}
+				if r == idExpr {
+					keys = append(keys, l)
+					return true
+				}
+				return false
+			}
+			if !walk(is.Cond) {
+				return "", fmt.Errorf("newClientConn: settings chain condition is not a comparison of %s: %s", idExpr, c06Render(c.fset, is.Cond))
+			}
+			if len(is.Body.List) != 1 {
+				return "", fmt.Errorf("newClientConn: settings case with several statements: %s", c06Render(c.fset, is.Body))
+			}
+			as, ok := is.Body.List[0].(*ast.AssignStmt)
 			if !ok || as.Tok != token.ASSIGN || len(as.Lhs) != 1 || len(as.Rhs) != 1 {
-				return "", fmt.Errorf("newClientConn: settings switch case is not a plain assignment: %s", c06Render(c.fset, cc))
+				return "", fmt.Errorf("newClientConn: settings case is not a plain assignment: %s", c06Render(c.fset, is.Body))
 			}
-			seeds = append(seeds, fmt.Sprintf("(%s, %s, %s)", c06LeanStr(c06Render(c.fset, cc.List[0])),
-				c06LeanStr(c06Render(c.fset, as.Lhs[0])), c06LeanStr(c06Render(c.fset, as.Rhs[0]))))
+			// names of locals mean nothing: the loop variable is spelled `setting`, a local target `local`
+			lv := c06Render(c.fset, rs.Value)
+			lhs := c06Render(c.fset, as.Lhs[0])
+			if _, isLocal := as.Lhs[0].(*ast.Ident); isLocal {
+				lhs = "local"
+			}
+			rhs := strings.ReplaceAll(c06Render(c.fset, as.Rhs[0]), lv+".", "setting.")
+			for _, k := range keys {
+				seeds = append(seeds, fmt.Sprintf("(%s, %s, %s)", c06LeanStr(k), c06LeanStr(lhs), c06LeanStr(rhs)))
+			}
+			chain = is.Else
 		}
 	}
+	sort.Strings(seeds) // the order of the cases means nothing
 	if !foundSwitch {
 		return "", fmt.Errorf("newClientConn: loop over t.Settings not found")
 	}
